@@ -18,6 +18,34 @@ import (
 
 func init() {
 	verifHarnesses["HarnessTunnelBB"] = HarnessTunnelBB
+	verifHarnesses["HarnessC16HostInfoBB"] = HarnessC16HostInfoBB
+}
+
+// HarnessC16HostInfoBB: a = {use TCP, send local address}: the endpoint advertised in the connect
+// request written by the real NewTunnel.
+func HarnessC16HostInfoBB(a []int) {
+	tcp, sendLocal := a[0] == 1, a[1] == 1
+	g := newTunGW(map[bool]string{false: "udp", true: "tcp"}[tcp], func(f knxnet.Service) []knxnet.Service {
+		if _, ok := f.(*knxnet.ConnReq); ok {
+			return []knxnet.Service{&knxnet.ConnRes{Channel: 7, Status: 0}}
+		}
+		return nil
+	})
+	conn, err := NewTunnel("192.0.2.1:3671", knxnet.TunnelLayerData, TunnelConfig{UseTCP: tcp, SendLocalAddress: sendLocal})
+	verifAssert("C16.hostinfo.bb.connects", err == nil && conn != nil && len(g.frames) >= 1)
+	req, ok := g.frames[0].(*knxnet.ConnReq)
+	verifAssert("C16.hostinfo.bb.first_frame_is_connect_request", ok)
+	if sendLocal && !tcp {
+		verifCover("C16.hostinfo.bb.local")
+		verifAssert("C16.hostinfo.bb.advertised", knxnet.VerifHostInfoCalls == 1 && req.Control == knxnet.VerifHostInfo && req.Tunnel == knxnet.VerifHostInfo)
+	} else {
+		verifCover("C16.hostinfo.bb.nat")
+		proto := knxnet.UDP4
+		if tcp {
+			proto = knxnet.TCP4
+		}
+		verifAssert("C16.hostinfo.bb.nat_endpoint", knxnet.VerifHostInfoCalls == 0 && req.Control == knxnet.HostInfo{Protocol: proto} && req.Tunnel == req.Control && req.Layer == knxnet.TunnelLayerData)
+	}
 }
 
 type tunGW struct {
@@ -40,7 +68,12 @@ func newTunGW(network string, handle func(f knxnet.Service) []knxnet.Service) *t
 		}
 		g.frames = append(g.frames, srv)
 		g.stamps = append(g.stamps, verifNow())
-		g.out <- srv
+		switch srv.(type) {
+		case *knxnet.TunnelRes, *knxnet.DiscRes:
+			// the client's own acknowledgements call for no reaction: logged only
+		default:
+			g.out <- srv
+		}
 	})
 	go func() {
 		verifDaemon()
@@ -55,6 +88,31 @@ func newTunGW(network string, handle func(f knxnet.Service) []knxnet.Service) *t
 		}
 	}()
 	return g
+}
+
+// newBBTunnel connects a client through the real constructor to a gateway that accepts the connect
+// request (channel symbolic), answers heartbeats and acknowledges tunnelling requests (UDP only).
+func newBBTunnel(tcp bool) (*Tunnel, *tunGW, uint8) {
+	c := nondetU8()
+	g := newTunGW(map[bool]string{false: "udp", true: "tcp"}[tcp], func(f knxnet.Service) []knxnet.Service {
+		switch r := f.(type) {
+		case *knxnet.ConnReq:
+			return []knxnet.Service{&knxnet.ConnRes{Channel: c, Status: 0}}
+		case *knxnet.ConnStateReq:
+			return []knxnet.Service{&knxnet.ConnStateRes{Channel: r.Channel, Status: 0}}
+		case *knxnet.TunnelReq:
+			if !tcp {
+				return []knxnet.Service{&knxnet.TunnelRes{Channel: r.Channel, SeqNumber: r.SeqNumber, Status: 0}}
+			}
+		}
+		return nil
+	})
+	cfg := TunnelConfig{ResendInterval: 2 * time.Second, HeartbeatInterval: 100 * time.Second, ResponseTimeout: 5 * time.Second, UseTCP: tcp}
+	conn, err := NewTunnel("192.0.2.1:3671", knxnet.TunnelLayerData, cfg)
+	if err != nil {
+		verifFail("env.tunnel_constructor")
+	}
+	return conn, g, c
 }
 
 func tunInd(i int) *cemi.LDataInd {
@@ -162,6 +220,7 @@ func HarnessTunnelBB(a []int) {
 		g.in <- &knxnet.TunnelReq{Channel: c2, SeqNumber: 0, Payload: tunInd(1)}
 		verifQuiesce()
 		bbAssert(focus, 4, "BB.C04.receive_counter_restarts", c14Equal(got, []int{0, 1}))
+		bbAssert(focus, 9, "BB.C09.receive_counter_restarts", c14Equal(got, []int{0, 1}))
 		wantSeqs = []int{0, 0}
 		wantAcks = 2
 	}
@@ -191,6 +250,9 @@ func HarnessTunnelBB(a []int) {
 		bbAssert(focus, 3, "BB.C03.tcp_one_request_per_send", len(seqs) == len(wantSeqs))
 	} else {
 		bbAssert(focus, 3, "BB.C03.sequence_numbers", c14Equal(seqs, wantSeqs))
+		if scenario == 2 {
+			bbAssert(focus, 9, "BB.C09.send_counter_restarts", c14Equal(seqs, wantSeqs))
+		}
 	}
 	if tcp {
 		bbAssert(focus, 4, "BB.C04.no_acks_on_tcp", acks == 0)
